@@ -1033,8 +1033,10 @@ class OneHotMux(Logic):
         for idx, sel in enumerate(sels):
             inv = ins[idx]
             
-            sel_name = sel.name
-            in_name = inv.name 
+            # ports are named by position (as in Select): naming them after the
+            # connected wires gives duplicate ports when a wire is used twice
+            sel_name = 'sel{}'.format(idx)
+            in_name = 'in{}'.format(idx)
             self.addIn(sel_name, sel)
             self.addIn(in_name, inv)
             selx = self.wire('selx{}'.format(idx), inv.getWidth())
